@@ -112,7 +112,79 @@ def call_inputs(c):
     return ins
 
 
-def check_impl(F, crate, body, relevant, is_traversal, report, exceptions=None, self_fields_of=None):
+def check_match(F, crate, body, m, adt, label, relevant, is_traversal, report, exceptions=None, whole_reject=None, subst=None):
+    """One `match` over a value of enum `adt`: every field of every matched
+    variant whose type can contain a relevant type must reach a traversal call
+    in its arm.  whole_reject(arm) -> True when the arm rejects the whole value
+    (nothing inside it needs visiting)."""
+    exceptions = exceptions or {}
+    n = 0
+
+    def field_types(variant_name):
+        for v in adt["variants"]:
+            if v["name"] == variant_name:
+                out = {}
+                for f in v["fields"]:
+                    t = f["ty"]
+                    for g, actual in (subst or {}).items():
+                        t = re.sub(r"(?<![\w:])" + re.escape(g) + r"(?![\w:])", actual, t)
+                    out[f["name"]] = t
+                return out
+        return {}
+    for a in m["arms"]:
+        for alt in hirq.pat_alts(a["pat"]):
+            if hirq.is_catchall(alt):
+                continue
+            vpath = hirq.pat_res(alt)
+            if not vpath:
+                continue
+            vname = vpath.split("::")[-1]
+            ftys = field_types(vname)
+            fpats, rest = hirq.field_pats(alt)
+            sp = hirq.strip_ref(alt)
+            if fpats is None and sp.get("k") == "TupleStruct":
+                fpats = {str(i): p for i, p in enumerate(sp.get("pats", []))}
+                rest = "ddpos" in sp
+            fpats = fpats or {}
+            for fname, fty in ftys.items():
+                if not mentions(fty, relevant):
+                    continue
+                key = "%s::%s.%s" % (label, vname, fname)
+                n += 1
+                if key in exceptions:
+                    report(key, True, F.where(body, a), "reviewed exception: " + exceptions[key], {"exception": exceptions[key]})
+                    continue
+                if whole_reject is not None and whole_reject(a):
+                    report(key, True, F.where(body, a), "the arm rejects the whole value", {"whole_reject": True})
+                    continue
+                fp = fpats.get(fname)
+                if fp is None:
+                    report(key, False, F.where(body, a),
+                           "field `%s` (%s) of %s is hidden by `..` and never traversed" % (fname, fty, vname), None)
+                    continue
+                binds = [b for b in hirq.pat_bindings(fp)
+                         if b[2] is None or mentions(crate.types[b[2]], relevant)]
+                if not binds:
+                    # nested constant pattern such as `body: Err(_)` or `Some(Ok(x))`: nothing to traverse if no binding
+                    inner_res = [x for x in walk(fp) if x.get("k") in ("TupleStruct", "Struct", "Path")]
+                    if inner_res and not hirq.is_catchall(fp):
+                        report(key, True, F.where(body, a), "field matched against a constant sub-pattern", None)
+                    else:
+                        report(key, False, F.where(body, a),
+                               "field `%s` (%s) of %s is bound to `_` and never traversed" % (fname, fty, vname), None)
+                    continue
+                seeds = set(l for _, l, _ in binds)
+                der = derived_lids(a["body"], seeds)
+                tcs = traversal_calls(a["body"], is_traversal)
+                visited = any(any(hirq.uses_local(i, l) for l in der) for c in tcs for i in call_inputs(c))
+                report(key, visited, F.where(body, a),
+                       "field `%s` (%s) of %s is bound but never reaches a traversal call" % (fname, fty, vname),
+                       {"field": fname, "type": fty})
+    return n
+
+
+def check_impl(F, crate, body, relevant, is_traversal, report, exceptions=None, self_fields_of=None,
+               skip_dispatch_only=False, whole_reject=None):
     """body: a fact body of `fn traverse(self/&self, ..)`.
     relevant: closure set of ADT paths. report(key, ok, where, detail, sample)."""
     exceptions = exceptions or {}
@@ -136,53 +208,13 @@ def check_impl(F, crate, body, relevant, is_traversal, report, exceptions=None, 
     if adt["kind"] == "enum":
         ms = [m for m in hirq.matches(hir) if hirq.unwrap_trivial(m["scrut"]).get("k") == "Path"
               and hirq.unwrap_trivial(m["scrut"]).get("lid") == self_lid]
+        if skip_dispatch_only:
+            trav = [m for m in ms if any(traversal_calls(a["body"], is_traversal) for a in m["arms"])]
+            if trav:
+                ms = trav
         for m in ms:
-            for a in m["arms"]:
-                for alt in hirq.pat_alts(a["pat"]):
-                    if hirq.is_catchall(alt):
-                        continue
-                    vpath = hirq.pat_res(alt)
-                    if not vpath:
-                        continue
-                    vname = vpath.split("::")[-1]
-                    ftys = field_types(vname)
-                    fpats, rest = hirq.field_pats(alt)
-                    sp = hirq.strip_ref(alt)
-                    if fpats is None and sp.get("k") == "TupleStruct":
-                        fpats = {str(i): p for i, p in enumerate(sp.get("pats", []))}
-                        rest = "ddpos" in sp
-                    fpats = fpats or {}
-                    for fname, fty in ftys.items():
-                        if not mentions(fty, relevant):
-                            continue
-                        key = "%s::%s.%s" % (impl_self.split("::")[-1], vname, fname)
-                        n += 1
-                        if key in exceptions:
-                            report(key, True, F.where(body, a), "reviewed exception: " + exceptions[key], {"exception": exceptions[key]})
-                            continue
-                        fp = fpats.get(fname)
-                        if fp is None:
-                            report(key, False, F.where(body, a),
-                                   "field `%s` (%s) of %s is hidden by `..` and never traversed" % (fname, fty, vname), None)
-                            continue
-                        binds = [b for b in hirq.pat_bindings(fp)
-                                 if b[2] is None or mentions(crate.types[b[2]], relevant)]
-                        if not binds:
-                            # nested constant pattern such as `body: Err(_)` or `Some(Ok(x))`: nothing to traverse if no binding
-                            inner_res = [x for x in walk(fp) if x.get("k") in ("TupleStruct", "Struct", "Path")]
-                            if inner_res and not hirq.is_catchall(fp):
-                                report(key, True, F.where(body, a), "field matched against a constant sub-pattern", None)
-                            else:
-                                report(key, False, F.where(body, a),
-                                       "field `%s` (%s) of %s is bound to `_` and never traversed" % (fname, fty, vname), None)
-                            continue
-                        seeds = set(l for _, l, _ in binds)
-                        der = derived_lids(a["body"], seeds)
-                        tcs = traversal_calls(a["body"], is_traversal)
-                        visited = any(any(hirq.uses_local(i, l) for l in der) for c in tcs for i in call_inputs(c))
-                        report(key, visited, F.where(body, a),
-                               "field `%s` (%s) of %s is bound but never reaches a traversal call" % (fname, fty, vname),
-                               {"field": fname, "type": fty})
+            n += check_match(F, crate, body, m, adt, impl_self.split("::")[-1], relevant, is_traversal, report, exceptions,
+                             whole_reject=whole_reject)
     else:
         ftys = field_types(None)
         for fname, fty in ftys.items():
